@@ -393,6 +393,11 @@ def panel_configs(verif_seed):
                 if abs(k) >= n:
                     k = 0
                 out.append({"recipe": mk(n, g.randrange(1 << 20)), "k": k, "rand": rand, "max_iters": mi})
+    # more than one hundred rows (the estimator's block size is min(100, n): probes are n x 100, not square), offsets on
+    # both sides, offsets next to the corner
+    for n, k in ((130, 0), (130, 3), (130, -3), (101, 100), (101, -100), (7, 6), (7, -6)):
+        out.append({"recipe": {"k": "generic", "n": n, "dtype": "f8", "seed": g.randrange(1 << 20), "sym": "gen"},
+                    "k": k, "rand": g.choice(["normal", "rademacher"]), "max_iters": g.choice([0, 1])})
     return out + panel_configs_structured(verif_seed)
 
 
@@ -729,6 +734,61 @@ def matrix_programs_c17():
                             "program": {"property": "C17", "run_seed": 0, "rng0": 3, "config": {"matrix": [fn, kname, str(key)]},
                                         "mode": "explicit", "steps": steps}})
     return out + temporary_programs_c17()
+
+
+# ------------------------------------------------------------------------------------------
+# Operand-interaction programs (C17): a keyed routine on a *variant* operand (same shape, other precision / other
+# field / other entries / other class) and then a keyed routine with the same key on the base operand.  The call on the
+# base operand also occurs alone in the routine x kind matrix, so the cross-history table reports a result that depends on
+# what was drawn before it for an equal (key, shape) -- a memo that forgets the precision, a buffer whose tail survives, a
+# start vector kept "for reuse".
+def interaction_programs_c17(tier="quick"):
+    kinds = path_kinds()
+    base = kinds["generic"]
+    n = 4
+
+    def G(dt, seed, sym="psd"):
+        return {"k": "ann", "name": "PSD", "of": {"k": "generic", "n": n, "dtype": dt, "seed": seed, "sym": sym}}
+
+    variants = {"f4": G("f4", 21), "c16": G("c16", 20), "c8": G("c8", 24), "other_f8": G("f8", 25),
+                "dense_f4": {"k": "ann", "name": "PSD", "of": {"k": "dense", "n": n, "dtype": "f4", "seed": 26, "sym": "psd"}}}
+    vdt = {"f4": "f4", "c16": "c16", "c8": "c8", "other_f8": "f8", "dense_f4": "f4"}
+    keyed = [(fn, kw) for fn, kw, k in MATRIX_ROUTINES if k][:15]
+    core = [(fn, kw) for fn, kw in keyed if fn in ("hutch", "lanczos", "arnoldi", "power_iteration", "nystrom", "lobpcg", "slq")]
+    seen, core1 = set(), []
+    for fn, kw in core:
+        if fn not in seen:
+            seen.add(fn)
+            core1.append((fn, kw))
+    out = []
+
+    def args(fn, kw, slot, dt):
+        a = dict(kw, key=7)
+        if "b" in a:
+            a["b"] = {"arr": dict(a["b"]["arr"], dtype=dt)}
+        return dict({"A": {"slot": slot}}, **a)
+
+    def add(r1, v, r2):
+        steps = [{"op": "make", "slot": "V", "recipe": variants[v]},
+                 {"op": "call", "fn": r1[0], "args": args(r1[0], r1[1], "V", vdt[v])},
+                 {"op": "make", "slot": "AK", "recipe": base},
+                 {"op": "call", "fn": r2[0], "args": args(r2[0], r2[1], "AK", "f8")}]
+        for j, s in enumerate(steps):
+            s["id"] = j
+        nm = lambda r: r[0] + "".join("_%s" % x for x in r[1].values() if isinstance(x, (str, int)))  # noqa: E731
+        out.append({"name": "interaction/%s(%s)->%s" % (nm(r1), v, nm(r2)),
+                    "program": {"property": "C17", "run_seed": 0, "rng0": 3, "config": {"matrix": ["interaction", nm(r1), v, nm(r2)]},
+                                "mode": "explicit", "steps": steps}})
+
+    for r in keyed:
+        for v in variants:
+            add(r, v, r)
+    for r1 in core1:
+        for r2 in core1:
+            if r1 is not r2:
+                for v in (("f4", ) if tier == "quick" else ("f4", "c16", "other_f8")):
+                    add(r1, v, r2)
+    return out
 
 
 # ------------------------------------------------------------------------------------------
